@@ -16,7 +16,7 @@ def jitter_stamps(rng, n, start=0.0):
 
 class C10(Prop):
     id = 'C10'
-    rule_added = '25% of the multi-variable cases contain an update that fails part-way (first update, first after a reset(), or after good ones).'
+    rule_added = '25% of the multi-variable cases contain an update that fails part-way (first update, first after a reset(), or after good ones). 30% of the dense cases in unit-suffix notation.'
     rule = ('discrete-time online monitors (past formulas and pastified bounded-future formulas, with and without '
             'named sub-specifications) are fed a random pre-reset history of 0..30 updates with jittered stamps, '
             'reset(), then 1..30 post-reset updates; every post-reset value and the sampling-violation counter are '
